@@ -32,7 +32,7 @@ static void lwe_cases(int K) {
 
 static void tlwe_cases(int K) {
     const int N = 1024;
-    for (int kk : {1, 2}) for (int M : MS) for (int ai = 0; ai < 6; ai++) for (int k = 0; k < K; k++) {
+    for (int kk : {1, 2, 3, 4}) for (int M : MS) for (int ai = 0; ai < 6; ai++) for (int k = 0; k < K; k++) {
         double alpha = alphas(M)[ai];
         std::string key = fmt("tlwe/k=%d/M=%d/alpha=%d/seed=%d", kk, M, ai, k);
         if (!take(key)) continue; if (deadline()) return;
@@ -56,7 +56,7 @@ static void tlwe_cases(int K) {
 static void tgsw_cases(int K) {
     const int N = 1024;
     struct L { int l, Bgbit; } Ls[] = {{2, 10}, {3, 7}, {4, 8}, {2, 16}};
-    for (auto L_ : Ls) for (int kk : {1, 2}) for (int mb = 1; mb <= L_.Bgbit && mb <= 10; mb += (mb < 3 ? 1 : 3)) for (int ai = 0; ai < 6; ai++) for (int k = 0; k < K; k++) {
+    for (auto L_ : Ls) for (int kk : {1, 2, 3}) for (int mb = 1; mb <= L_.Bgbit && mb <= 10; mb += (mb < 3 ? 1 : 3)) for (int ai = 0; ai < 6; ai++) for (int k = 0; k < K; k++) {
         int M = 1 << mb; double Bg = (double)(1 << L_.Bgbit);
         // decryptable maximum of tGswSymDecrypt: the digit of 1/Msize (magnitude Bg/Msize) multiplies the row noise: Msize*alpha*(Bg/Msize) <= 1/20
         double amax = 1. / (20. * Bg); double as[6] = {0., std::pow(2., -30), std::min(std::pow(2., -25), amax), amax / 4, amax / 2, amax}; double alpha = as[ai];
@@ -120,7 +120,7 @@ static void history_cases() {
         nontrivial(1); outcome(mix(M, M2));
     }
     // the same key OBJECT re-generated: whatever is cached per key must not survive new key content
-    for (int kk : {1, 2}) for (int M : {4, 5}) {
+    for (int kk : {1, 2, 3}) for (int M : {4, 5}) {
         std::string key = fmt("history/rekey/k=%d/M=%d", kk, M);
         if (!take(key)) continue; if (deadline()) return;
         current(key); seed_gen(key, 0);
@@ -149,7 +149,7 @@ static void trivial_cases(int K) {
             delete_LweKey(sk); }
         outcome(mix(n, M)); delete_LweSample(c); delete_LweParams(p);
     }
-    for (int kk : {1, 2}) for (int M : {2, 5, 8, 1000}) {
+    for (int kk : {1, 2, 3}) for (int M : {2, 5, 8, 1000}) {
         std::string key = fmt("trivial/tlwe/k=%d/M=%d", kk, M);
         if (!take(key)) continue; if (deadline()) return;
         current(key);
